@@ -330,7 +330,12 @@ func c13AbsValidFunc(c *Ctx, rule string, fr *FuncRef, windows bool, suffix stri
 		return
 	}
 	g := p.CFGOf(fr.Decl.Body, info)
-	members := cleanedPaths(6, windows)
+	// bounded-exhaustive over cleaned paths; the thorough tier enumerates longer spellings
+	bound := 6
+	if c.Tier == "thorough" {
+		bound = 10
+	}
+	members := cleanedPaths(bound, windows)
 	// per class: members reaching a success return
 	reach := map[string][]string{}
 	count := map[string]int{}
